@@ -347,10 +347,16 @@ func c05Edits() []c05Edit {
 		}},
 		{"handler-signature-mismatch", func(ls []c05Line, i int) (string, bool) {
 			// an anonymous parameter must still have the type of the event's signature
-			if ls[i].kind != "on" || !strings.HasPrefix(strings.TrimSpace(ls[i].text), "on key ") {
+			t := strings.TrimSpace(ls[i].text)
+			switch {
+			case ls[i].kind != "on":
 				return "", false
+			case strings.HasPrefix(t, "on down "):
+				return replaceLine(ls, i, ls[i].indent+"on down "+[]string{"_:string _:num", "_:num _:string", "_:[]num _:num", "_:any _:num", "_:num _:bool"}[i%5]), true
+			case strings.HasPrefix(t, "on input "):
+				return replaceLine(ls, i, ls[i].indent+"on input "+[]string{"_:num val:string", "_:bool val:string", "_:[]string val:string"}[i%3]), true
 			}
-			return replaceLine(ls, i, ls[i].indent+"on key "+[]string{"_:num", "_:[]string", "_:bool", "_:any"}[i%4]), true
+			return "", false
 		}},
 		{"stray-after-end", func(ls []c05Line, i int) (string, bool) {
 			if ls[i].kind != "end" {
@@ -380,7 +386,7 @@ func c05Base(c *core.Ctx) string {
 	base := gen.Print(prog, nil)
 	// graphics at the very start and an event handler: drawing, sleeping, reading must not happen either
 	head := "move 10 10\ncircle 5\nsleep 0.001\nline0 := read\nprint \"first effect\" line0\n"
-	tail := "on key k:string\n    print \"key\" k\n    circle 1\nend\n"
+	tail := "on key k:string\n    print \"key\" k\n    circle 1\nend\non down _:num _:num\n    print \"down\"\nend\non input _:string val:string\n    print val\nend\n"
 	// typed functions whose body ends in a branch chain: every branch must return
 	n := c.Rng.Intn(4)
 	chain, _ := returnPathsSource(c.Rng, n, nil, []string{"num", "string"}[c.Rng.Intn(2)])
